@@ -136,6 +136,9 @@ pub fn check_case(c: &L2Case, prop: &str, rep: &mut Report) -> bool {
         let consistent = match (r.as_str(), w.as_str()) {
             ("ok", _) => e.v == Exp::Ok && Some(&e.out) == c.spec_out.as_ref(),
             ("err", "unpacked-more") => true, // phantom symbols: byte level decides
+            // spare declared input / a marker after the declared output: the model (like today's decoder) rejects,
+            // the property's list does not include it unless more output is decodable: byte level decides
+            ("err", "packed-long") | ("err", "eos") | ("err", "eos-in-chunk") => e.v != Exp::Ok,
             ("err", _) => e.v == Exp::Err,
             _ => false,
         };
@@ -150,12 +153,25 @@ pub fn check_case(c: &L2Case, prop: &str, rep: &mut Report) -> bool {
             // the raw decoder object is reusable: the verdict must not depend on what the same object
             // saw before (same stream again, with and without reset)
             let first = api::raw_lzma2(&data);
-            let again = raw_twice(&data, e.v == Exp::Ok);
-            if let Some(msg) = again {
+            // what a used object does (with reset: C14's text; without reset: fixed by no listed property) is
+            // shape-tier information here; only a panic is reported
+            let (again, accepted_again) = raw_twice(&data, e.v == Exp::Ok);
+            // C17 quantifies over STREAMS: a stream with malformed framing is "never accepted", whatever the decoder
+            // object saw before (the same stream offered again, with or without reset)
+            if prop == "C17" && e.v == Exp::Err && e.class != "dist" && accepted_again {
                 let mut cj = serde_json::to_value(c).unwrap();
                 cj["kind"] = json!("lzma2");
-                rep.violation(prop, msg, cj);
+                rep.violation(prop, format!("malformed stream ({}) accepted by an Lzma2Decoder object that had rejected the same stream before", e.class), cj);
                 return false;
+            }
+            if let Some(msg) = again {
+                if msg.starts_with("panic") {
+                    let mut cj = serde_json::to_value(c).unwrap();
+                    cj["kind"] = json!("lzma2");
+                    rep.violation(prop, msg, cj);
+                    return false;
+                }
+                rep.drift(format!("(reuse of an Lzma2Decoder, seen while checking {}) {}", prop, msg), json!({"origin": c.origin}));
             }
             first
         }
@@ -171,13 +187,20 @@ pub fn check_case(c: &L2Case, prop: &str, rep: &mut Report) -> bool {
         }
         a => panic!("api {}", a),
     };
+    // Each clause belongs to the property whose text states it; seen under another property it is shape-tier
+    // information (DRIFT): exact output of well-formed streams = C02 (wrong bytes where a copy is invalid = C09's
+    // "never fabricates"); acceptance of malformed framing = C17 (out-of-window copy = C09); reader position = C11;
+    // what the sink holds after a REJECTION is fixed only by C09 (no fabricated bytes) and C12 (I/O faults).
     let mut vs = vec![];
+    let mut other: Vec<String> = vec![];
+    let owns = |ps: &[&str]| ps.contains(&prop);
     match o.verdict {
         Verdict::Panic => vs.push(format!("panic: {}", o.msg)),
         Verdict::Ok => match e.v {
             Exp::Ok | Exp::Any => {
                 if o.out != e.out {
-                    vs.push(format!("output differs from what the format defines ({} vs {} bytes)", o.out.len(), e.out.len()));
+                    let d = format!("output differs from what the format defines ({} vs {} bytes)", o.out.len(), e.out.len());
+                    if owns(&["C02", "C09"]) { vs.push(d) } else { other.push(d) }
                 } else if prop == "C11" && c.api != "xz" {
                     if let Some(ec) = e.consumed {
                         if ec != consumed {
@@ -186,19 +209,30 @@ pub fn check_case(c: &L2Case, prop: &str, rep: &mut Report) -> bool {
                     }
                 }
             }
-            Exp::Err => vs.push(format!("malformed stream accepted ({}), {} bytes delivered", e.class, o.out.len())),
+            Exp::Err => {
+                let d = format!("malformed stream accepted ({}), {} bytes delivered", e.class, o.out.len());
+                let mine = if e.class == "dist" { owns(&["C09"]) } else { owns(&["C17"]) };
+                if mine { vs.push(d) } else { other.push(d) }
+            }
         },
         Verdict::Err => match e.v {
-            Exp::Ok => vs.push(format!("well-formed stream rejected: {}", o.msg)),
+            Exp::Ok => {
+                let d = format!("well-formed stream rejected: {}", o.msg);
+                if owns(&["C02"]) { vs.push(d) } else { other.push(d) }
+            }
             _ => {
                 if c.api != "xz" && !is_prefix(&o.out, &e.out) {
-                    vs.push("bytes delivered before the error are not a prefix of the valid output".into());
+                    let d = "bytes delivered before the error are not a prefix of the valid output".to_string();
+                    if owns(&["C09"]) { vs.push(d) } else { other.push(d) }
                 }
             }
         },
     }
+    for d in other {
+        rep.drift(format!("(clause of another property, seen while checking {}) {}", prop, d), json!({"origin": c.origin, "class": e.class}));
+    }
     // sinks that accept only part of each write must still receive exactly the output
-    if vs.is_empty() && e.v == Exp::Ok && c.api == "lzma2" && data.len() % 3 == 0 {
+    if vs.is_empty() && e.v == Exp::Ok && c.api == "lzma2" && data.len() % 3 == 0 && owns(&["C02", "C12"]) {
         let mut sink = crate::io::FaultSink { short: [1usize, 5, 4096][data.len() / 3 % 3], ..Default::default() };
         let mut rd = &data[..];
         let r = crate::io::catch(|| lzma_rs::lzma2_decompress(&mut rd, &mut sink).is_ok());
@@ -220,7 +254,7 @@ pub fn check_case(c: &L2Case, prop: &str, rep: &mut Report) -> bool {
 }
 
 /// Decode the same stream three times on ONE Lzma2Decoder (plain reuse, then after reset()).
-fn raw_twice(data: &[u8], well_formed: bool) -> Option<String> {
+fn raw_twice(data: &[u8], well_formed: bool) -> (Option<String>, bool) {
     use lzma_rs::decompress::raw::Lzma2Decoder;
     let r = crate::io::catch(|| {
         let mut d = Lzma2Decoder::new();
@@ -236,7 +270,8 @@ fn raw_twice(data: &[u8], well_formed: bool) -> Option<String> {
         }
         v
     });
-    match r {
+    let accepted_again = matches!(&r, crate::io::Caught::Done(v) if v[1].0 || v[2].0);
+    let msg = match r {
         crate::io::Caught::Panic(m) => Some(format!("panic on reuse: {}", m)),
         crate::io::Caught::Done(v) => {
             if v[0].0 != v[2].0 || (v[0].0 && v[0].1 != v[2].1) {
@@ -251,7 +286,8 @@ fn raw_twice(data: &[u8], well_formed: bool) -> Option<String> {
                 None
             }
         }
-    }
+    };
+    (msg, accepted_again)
 }
 
 fn wants(prop: &str, res: &str, why: &str) -> bool {
@@ -568,6 +604,17 @@ pub fn extremes(prop: &str, seed: u64, rep: &mut Report) {
         ("unpacked=1,packed=min", vec![Chunk::Lzma { class: 3, props: Some(p), prog: vec![Sym::Lit { b: 9 }] }, Chunk::Lzma { class: 1, props: None, prog: vec![Sym::Lit { b: 8 }] }, Chunk::Raw { reset: false, data: vec![7] }]),
         ("raw=65536 then lzma", vec![Chunk::Raw { reset: true, data: (0..65536usize).map(|i| (i % 253) as u8).collect() }, Chunk::Lzma { class: 2, props: Some(p), prog: vec![Sym::Match { d: 65536, n: 273 }, Sym::Rep { r: 0, n: 100 }] }]),
     ];
+    let mut cases = cases;
+    {
+        // more than 32 MiB of history without a dictionary reset, then a match reaching 24 MiB back: the accumulating
+        // window of the LZMA2 decoder must still hold everything since the last dictionary reset
+        let mut chunks: Vec<Chunk> = vec![];
+        for i in 0..529usize {
+            chunks.push(Chunk::Raw { reset: i == 0, data: (0..65536usize).map(|j| ((i * 31 + j) % 251) as u8).collect() });
+        }
+        chunks.push(Chunk::Lzma { class: 2, props: Some(p), prog: vec![Sym::Match { d: 24 << 20, n: 20 }, Sym::Lit { b: 7 }, Sym::Match { d: (33 << 20) + 5, n: 9 }] });
+        cases.push(("far match over 33 MiB of stored chunks", chunks));
+    }
     for (name, chunks) in cases {
         let (stream, out, infos) = crate::build::lzma2_stream(&chunks);
         for api_name in ["lzma2", "raw", "xz"] {
